@@ -114,6 +114,16 @@ def run(ctx, res):
                         a = init["args"][0]
                         if a["k"] in ("LitStr", "LitChar") and a["v"].isascii():
                             find_needle[name] = len(a["v"])
+        if n["k"] == "Match" and n["e"]["k"] == "MethodCall" and n["e"]["method"] in ("find", "len_utf8", "len", "end"):
+            # `match s.find('\n') { Some(i) => .., None => .. }`
+            init = n["e"]
+            for arm in n["arms"]:
+                for name in S.pat_bindings(arm["pat"]):
+                    safe_names.add(name)
+                    if init["method"] == "find" and init["args"]:
+                        a = init["args"][0]
+                        if a["k"] in ("LitStr", "LitChar") and a["v"].isascii():
+                            find_needle[name] = len(a["v"])
     n_adv = 0
 
     def ascii_guard_lengths(path_nodes):
@@ -198,6 +208,18 @@ def run(ctx, res):
     if len(structs) != 1:
         raise M.MissingAnchor("Position::merge does not build exactly one Position")
     fm = field_map(structs[0])
+    # look through `let x = <expr>;` bindings of the function body (hoisted field values, field-init shorthand)
+    lets = {}
+    for st in mg["body"]["stmts"]:
+        if st["k"] == "Let" and st.get("init") is not None and st["pat"]["k"] == "PIdent" and not st["pat"].get("mut"):
+            lets[st["pat"]["name"]] = st["init"]
+    for fld in list(fm):
+        for _ in range(3):
+            e = fm[fld]
+            if e is not None and e["k"] == "Path" and e.get("path") in lets:
+                fm[fld] = lets[e["path"]]
+            else:
+                break
 
     def is_field(e, base, name):
         return e["k"] == "Field" and e["name"] == name and e["e"].get("path") == base
